@@ -693,6 +693,17 @@ impl DtlsInner {
                                     is_client,
                                 )
                                 .await?;
+                            } else if msg.msg_type == HandshakeType::Finished
+                                && !is_client
+                                && matches!(*self.state.lock(), DtlsState::Connected(..))
+                            {
+                                // The client only retransmits its final flight while it has
+                                // not seen ours: our ChangeCipherSpec + Finished were lost, and
+                                // the retransmit timer stops once Connected. Answer the
+                                // duplicate Finished with that flight again (RFC 6347 4.2.4).
+                                if let Some(records) = &ctx.last_flight_records {
+                                    let _ = self.conn.send_dtls_record_batch(records).await;
+                                }
                             }
                             continue;
                         }
